@@ -671,7 +671,11 @@ def rule_PK(ctx):
         else:
             r.ok(x)
     loops = [x for x in own_walk(pk.node) if isinstance(x, ast.For) and any(isinstance(y, ast.AugAssign) and isinstance(y.op, ast.Add) for y in ast.walk(x))]
-    if not loops:
+    folds = [x for _g, x in G.route_walk(m, pk) if isinstance(x, ast.Call) and ast.unparse(x.func) in ('functools.reduce', 'reduce') and x.args
+             and ast.unparse(x.args[0]) in ('operator.iadd', 'operator.add', 'operator.concat', 'operator.iconcat')]
+    if not loops and not folds:
+        loops = [x for _g, x in G.route_walk(m, pk) if isinstance(x, ast.For) and any(isinstance(y, ast.AugAssign) and isinstance(y.op, ast.Add) for y in ast.walk(x))]
+    if not loops and not folds:
         raise AnalysisError('pack: concatenation loop not recognised (needs a human)')
     r.ok('concatenation loop')
     return r
